@@ -2,6 +2,7 @@
    bound.  Statements only.  Arithmetic statements are at the real-number
    instance RN (exact arithmetic; binary64 rounding is outside, see DESIGN 3.1). *)
 From Coq Require Import List Bool Arith Reals.
+From ART Require Import Topo Topo_bound DualVig Wrap_bound Hyper Hyper_total Ellip_total DualVig_bound.
 From ART Require Import Num NumR Vec Search Kernel BaseArt BaseArt_proofs BaseArt_folds
      Fuzzy Fuzzy_R Hyper Hyper_R ART1 ART1_R Bounds_R Hyper_total Fuzzy_fit_bound.
 Import ListNotations.
@@ -93,6 +94,58 @@ Theorem C02_art1_cover :
   forall (x t : list R) rho, @l1norm RN x <> 0 -> 0 < @l1norm RN x ->
     rho <= @l1norm RN (@vand RN x t) / @l1norm RN x -> rho * @l1norm RN x <= @l1norm RN (@vand RN x t).
 Proof. exact art1_cover. Qed.
+
+(* ---- the base module of TopoART (the quantifier names it): through both winners' updates, new categories and every
+        pruning round, every Fuzzy ART base category keeps |w| >= rho d, under every mode that never lowers the
+        vigilance (true only since match tracking fires on vigilance-passing vetoed categories alone: /repo 79caf04) ---- *)
+Theorem C02_topo_fuzzy_base_categories_obey_the_size_bound :
+  forall (alpha beta beta_lower : R), 0 <= beta <= 1 -> 0 <= beta_lower <= 1 ->
+  forall tau phi (s : topo (N:=RN)) X veto mode eps s' ls rho0 d n,
+    raising mode eps -> rho0 <= 1 -> 0 < d -> rho (TB s) = [rho0] -> Forall (cc_ok d n) X ->
+    topo_fit (@fuzzyK RN alpha beta) (@fuzzyK RN alpha beta_lower) tau phi s X veto mode eps = Some (s', ls) ->
+    Forall (fz_ok rho0 d n) (W (TB s')) /\ rho (TB s') = [rho0].
+Proof. exact topo_fuzzy_fit_bound. Qed.
+Print Assumptions C02_topo_fuzzy_base_categories_obey_the_size_bound.
+
+(* the same clause generically in the base module (Wrap_bound.v), instantiated for Hypersphere ART under TopoART and
+   for Fuzzy / Hypersphere ART under DualVigilanceART, at the level of whole fit calls *)
+Theorem C02_topo_hypersphere_base_categories_obey_the_radius_bound :
+  forall (alpha beta beta_lower r_hat rho0 : R), 0 <= beta <= 1 -> 0 <= beta_lower <= 1 -> 0 < r_hat -> rho0 <= 1 ->
+  forall tau phi (s : topo (N:=RN)) X veto mode eps s' ls,
+    raising mode eps -> rho (TB s) = [rho0] ->
+    topo_fit (@hyperK RN alpha beta r_hat) (@hyperK RN alpha beta_lower r_hat) tau phi s X veto mode eps = Some (s', ls) ->
+    Forall (hs_ok r_hat rho0) (W (TB s')) /\ rho (TB s') = [rho0].
+Proof. exact topo_hyper_fit_bound. Qed.
+Theorem C02_dualvigilance_fuzzy_base_categories_obey_the_size_bound :
+  forall (alpha beta rho0 d : R) (n : nat), 0 <= beta <= 1 -> rho0 <= 1 -> 0 < d ->
+  forall (s : dv (N:=RN)) X veto mode eps lb s' ls,
+    raising mode eps -> rho (DB s) = [rho0] -> Forall (cc_ok d n) X ->
+    dv_fit (@fuzzyK RN alpha beta) s X veto mode eps lb = Some (s', ls) ->
+    Forall (fz_ok rho0 d n) (W (DB s')) /\ rho (DB s') = [rho0].
+Proof. exact dv_fuzzy_fit_bound. Qed.
+Theorem C02_dualvigilance_hypersphere_base_categories_obey_the_radius_bound :
+  forall (alpha beta r_hat rho0 : R), 0 <= beta <= 1 -> 0 < r_hat -> rho0 <= 1 ->
+  forall (s : dv (N:=RN)) X veto mode eps lb s' ls,
+    raising mode eps -> rho (DB s) = [rho0] ->
+    dv_fit (@hyperK RN alpha beta r_hat) s X veto mode eps lb = Some (s', ls) ->
+    Forall (hs_ok r_hat rho0) (W (DB s')) /\ rho (DB s') = [rho0].
+Proof. exact dv_hyper_fit_bound. Qed.
+Theorem C02_topo_ellipsoid_base_categories_obey_the_radius_bound :
+  forall (alpha beta beta_lower mu r_hat rho0 : R), 0 <= beta <= 1 -> 0 <= beta_lower <= 1 -> 0 < r_hat -> rho0 <= 1 ->
+  forall tau phi (s : topo (N:=RN)) X veto mode eps s' ls,
+    raising mode eps -> rho (TB s) = [rho0] ->
+    topo_fit (@ellipK RN alpha beta mu r_hat) (@ellipK RN alpha beta_lower mu r_hat) tau phi s X veto mode eps = Some (s', ls) ->
+    Forall (el_ok r_hat rho0) (W (TB s')) /\ rho (TB s') = [rho0].
+Proof. exact topo_ellipsoid_fit_bound. Qed.
+Theorem C02_dualvigilance_ellipsoid_base_categories_obey_the_radius_bound :
+  forall (alpha beta mu r_hat rho0 : R), 0 <= beta <= 1 -> 0 < r_hat -> rho0 <= 1 ->
+  forall (s : dv (N:=RN)) X veto mode eps lb s' ls,
+    raising mode eps -> rho (DB s) = [rho0] ->
+    dv_fit (@ellipK RN alpha beta mu r_hat) s X veto mode eps lb = Some (s', ls) ->
+    Forall (el_ok r_hat rho0) (W (DB s')) /\ rho (DB s') = [rho0].
+Proof. exact dv_ellipsoid_fit_bound. Qed.
+Print Assumptions C02_topo_hypersphere_base_categories_obey_the_radius_bound.
+Print Assumptions C02_dualvigilance_hypersphere_base_categories_obey_the_radius_bound.
 
 (* ---- Hypersphere / Ellipsoid ART ---- *)
 Theorem C02_hs_new_contains_old :
